@@ -676,6 +676,65 @@ def history_cases(rng, n):
         yield Case(f"cg_crel_history 100000 {';'.join(star)}")
 
 
+def _rand_rels(rng, nprimes, nrel, maxlen, emax=3, larges=True, minlen=0, extras=True):
+    """relations with DISTINCT primes (as sieved relations have); a hidden rank deficiency makes eliminations cascade"""
+    primes = small_primes(7 * nprimes + 50)[:nprimes]
+    lp = [p for p in small_primes(12 * nprimes + 300) if p > primes[-1]][:max(2, nprimes // 3)]
+    out = []
+    for _ in range(nrel):
+        k = rng.randrange(minlen, maxlen + 1)
+        ps = sorted(rng.sample(primes, min(k, len(primes))))
+        rng.shuffle(ps)
+        fs = [(q, rng.choice([-emax, -2, -1, -1, 1, 1, 1, 2, emax, 0 if rng.randrange(12) == 0 else 1])) for q in ps]
+        l1 = l2 = None
+        if larges and rng.randrange(3) == 0:
+            l1 = (rng.choice(lp), rng.choice([-2, -1, 1, 1]))
+            if rng.randrange(3) == 0:
+                q = rng.choice(lp)
+                if q != l1[0]:
+                    l2 = (q, rng.choice([-1, 1]))
+        out.append(show_rel(fs, l1, l2))
+    # duplicates and opposite relations (remove_duplicates normalises the sign)
+    for _ in range(rng.randrange(0, 3) if extras else 0):
+        if out:
+            r = rng.choice(out)
+            fs, l1, l2 = parse_rel(r)
+            neg = lambda x: (x[0], -x[1])
+            out.append(rng.choice([r, show_rel([neg(x) for x in fs], l1 and neg(l1), l2 and neg(l2))]))
+    return out
+
+
+def filter_cases(rng, scale):
+    # rowsub: the merge with every interleaving, cancellations, checked_mul / checked_add overflow
+    for i in range(150 * scale):
+        rels = _rand_rels(rng, rng.choice([3, 5, 8]), 2, 6, emax=rng.choice([3, 3, 1 << 20, (1 << 31) - 1]), minlen=1, extras=False)
+        c = rng.choice([1, -1, 2, -3, 7, 1 << 12, -(1 << 30), (1 << 31) - 1])
+        yield Case(f"rf_rowsub {rng.choice(['0 1', '1 0'])} {c} {';'.join(rels)}")
+    for a in ("0 0 1", "0 1 0"):                                   # debug_assert!(c != 0 && i != j)
+        yield Case(f"rf_rowsub {a} 3^1.5^-1/_/_;3^1.7^3/101^1/_", o=False, profiles=["chk"])
+    yield Case("rf_rowsub 0 5 1 3^1.5^-1/_/_;3^1.7^3/101^1/_", o=False)      # index out of range
+    for i in range(60 * scale):
+        rels = _rand_rels(rng, rng.choice([3, 6, 10]), rng.choice([3, 8, 20]), 5)
+        yield Case(f"rf_trim {rng.choice([0, 1, 2, 3, 5, 9, 50])} {';'.join(rels)}")
+    for i in range(120 * scale):
+        rels = _rand_rels(rng, rng.choice([2, 4, 6, 10, 16]), rng.choice([2, 5, 12, 25, 40]), rng.choice([2, 4, 6]))
+        yield Case(f"rf_pivots {rng.choice([0, 1, 2, 3, 5, 100])} {';'.join(rels)}")
+    for i in range(120 * scale):
+        rels = _rand_rels(rng, rng.choice([2, 4, 6, 10, 16, 30]), rng.choice([2, 5, 12, 25, 40, 90]), rng.choice([2, 4, 6]))
+        yield Case(f"rf_dense {';'.join(rels)}")
+    yield Case("rf_dense -")
+    yield Case("rf_dense -/_/_;-/_/_")
+    # enough columns and surplus rows for the trimming branch (weight.len() % 64 == 0, rows > 1.5 columns + 128)
+    for i in range(3 * scale):
+        rels = _rand_rels(rng, rng.choice([70, 100, 140]), rng.choice([420, 520]), rng.choice([3, 5]), larges=False)
+        yield Case(f"rf_dense {';'.join(rels)}", timeout=120)
+    # real sieved relations through the real filter (model follow-up + form arithmetic)
+    for i in range(14 * scale):
+        bits = rng.choice([14, 20, 30, 40, 50, 64, 80, 100])
+        D = random_fundamental(rng, bits, [1, 5, 8, 12][i % 4])
+        yield Case(f"rf_real {D} 0 {1 if bits <= 32 else rng.choice([4, 12, 30])} {rng.choice([30, 60])}", k=False, timeout=120)
+
+
 def fundamental_range(lo, hi):
     for n in range(lo, hi):
         if is_fundamental(-n):
@@ -698,6 +757,7 @@ def cases(tier, rng, extended=False):
     table_upto(X)
     yield from bplus_cases(rng, 1500 * scale)
     yield from history_cases(rng, 400 * scale)
+    yield from filter_cases(rng, scale)
     # ---- factor bases: b_plus of the real factor base against the documented convention
     for i in range(60 * scale):
         bits = rng.choice([5, 10, 20, 30, 40, 64, 100, 128])
@@ -783,7 +843,7 @@ def corpus_case(line):
     if line.startswith("!chk "):
         return Case(line[5:], o=False, profiles=["chk"])
     op = line.split(" ", 1)[0]
-    return Case(line, k=op in ("cg_b_plus", "cg_crel_history"), timeout=300)
+    return Case(line, k=op in ("cg_b_plus", "cg_crel_history", "rf_pivots", "rf_dense", "rf_rowsub", "rf_trim"), timeout=300)
 
 
 # ================================================================ oracle
@@ -1086,6 +1146,8 @@ def oracle(case, ans):
         return None
     if op == "cg_crel_history":
         return oracle_history(case, ans)
+    if op.startswith("rf_"):
+        return oracle_filter(case, ans)
     if op in ("cg_h", "cg_full"):
         _RATE["n"] += 1
     if ans in ("panic", "abort", "hang", "?"):
@@ -1190,6 +1252,112 @@ def oracle(case, ans):
                 ents.append(_rel_entries(*r))
         return _check_lines(D, ents, "sieved relation")
     return "unknown op"
+
+
+_P61 = (1 << 61) - 1
+
+
+def _rank_mod(rows):
+    """rank over GF(2^61 - 1) of sparse rows {prime: coefficient} (own elimination)"""
+    piv = {}
+    for r in rows:
+        r = {k: v % _P61 for k, v in r.items() if v % _P61}
+        while r:
+            k = min(r)
+            if k not in piv:
+                inv = pow(r[k], -1, _P61)
+                piv[k] = {j: v * inv % _P61 for j, v in r.items()}
+                break
+            f = r[k]
+            for j, v in piv[k].items():
+                nv = (r.get(j, 0) - f * v) % _P61
+                if nv:
+                    r[j] = nv
+                else:
+                    r.pop(j, None)
+    return len(piv)
+
+
+def _vec(fs, l1=None, l2=None):
+    v = {}
+    for q, e in list(fs) + ([l1] if l1 else []) + ([l2] if l2 else []):
+        v[q] = v.get(q, 0) + e
+    return v
+
+
+def parse_dump(text):
+    parts = text.split(" | ")
+    d = {}
+    for t in parts:
+        if t.startswith("rows="):
+            d["rows"] = [] if t[5:] == "-" else [[] if r == "-" else [parse_fac(x) for x in r.split(".")] for r in t[5:].split(";")]
+        elif t.startswith("removed="):
+            d["removed"] = []
+            if t[8:] != "-":
+                for x in t[8:].split(";"):
+                    q, r = x.split("=", 1)
+                    d["removed"].append((int(q), [] if r == "-" else [parse_fac(y) for y in r.split(".")]))
+        elif t.startswith("weight="):
+            d["weight"] = {} if t[7:] == "-" else {int(a): int(b) for a, b in (x.split(":") for x in t[7:].split(","))}
+        elif t.startswith("dups=") or t.startswith("n=") or t.startswith("trimmed="):
+            k, v = t.split("=")
+            d[k] = int(v)
+    return d
+
+
+def oracle_filter(case, ans):
+    """specification of the relation filter, independent of its strategy: it only replaces relations by integer
+    combinations of relations. Checked as equality of rational spans (rank over GF(2^61-1)): every kept row and every
+    saved relation `p = prod l^e` lies in the span of the input relations; nothing is lost unless rows were trimmed."""
+    op, a = case.op, case.args
+    rels_txt = a[-1]
+    if op == "rf_real":
+        if ans in ("panic", "hang", "abort"):
+            return None                       # sieve refusals are counted elsewhere
+        rels_txt, ans = ans.split(" || ")
+    if ans == "panic":
+        return "panic on a well-formed relation list"
+    if ans == "overflow":
+        return None                           # reported by the code, the caller stops filtering
+    rels = [] if rels_txt == "-" else [parse_rel(x) for x in rels_txt.split(";")]
+    inp = [_vec(*r) for r in rels]
+    d = parse_dump(ans)
+    out = [_vec(r) for r in d["rows"] if r]
+    for q, r in d["removed"]:
+        v = _vec(r)
+        v = {k: -e for k, e in v.items()}
+        v[q] = v.get(q, 0) + 1
+        out.append(v)
+    if len(inp) <= 120:
+        r_in = _rank_mod(inp)
+        if _rank_mod(inp + out) != r_in:
+            return "a kept row or a saved relation is not a combination of the input relations"
+        if op in ("rf_dense", "rf_pivots", "rf_rowsub", "rf_real") and _rank_mod(out) != r_in:
+            return "the kept rows and saved relations span less than the input relations (a relation was lost)"
+    # an eliminated prime occurs in no kept row and in no later saved relation
+    gone = set()
+    for q, r in d["removed"]:
+        if any(x in gone and e != 0 for x, e in r):            # (entries with exponent 0 are inert leftovers)
+            return f"saved relation of {q} mentions a prime eliminated earlier"
+        gone.add(q)
+    for r in d["rows"]:
+        if any(x in gone and e != 0 for x, e in r):
+            return "a kept row still contains an eliminated prime"
+    if op in ("rf_dense", "rf_real"):
+        rows = [tuple(r) for r in d["rows"]]
+        if any(not r for r in rows) or rows != sorted(set(rows)) or any(r[0][1] < 0 for r in rows):
+            return "after remove_duplicates the rows must be non-empty, sorted, distinct and sign-normalised"
+    if op == "rf_real":
+        D = int(a[0])
+        cache, pr = {}, form_principal(D)
+        rows = [r for r in d["rows"]][:40]
+        for r in rows:
+            if relation_value_exp(D, r, cache) != pr:
+                return f"D = {D}: filtered row is not trivial in the class group: {r}"
+        for q, r in d["removed"][:40]:
+            if relation_value_exp(D, [(q, -1)] + r, cache) != pr:
+                return f"D = {D}: saved relation {q} = {r} does not hold in the class group"
+    return None
 
 
 def oracle_history(case, ans):
@@ -1376,6 +1544,9 @@ def followup(case, ans):
             return None
         h, invs = _parse_h(ans)
         return f"cg_full_model {D} 1 {h} {','.join(map(str, invs)) or '-'} -", f"{h} {_inv_flag(h, invs)} ok"
+    if op == "rf_real":
+        rels, dump = ans.split(" || ")
+        return f"rf_dense {rels}", dump
     if op == "cg_poly":
         tr = parse_poly(ans)
         if not tr["polys"]:
@@ -1439,6 +1610,16 @@ def _klass(case, ans):
         cyc = [int(x) for x in cnt["cycles"].split(",")]
         deep = "cycles>=3" if sum(cyc[2:]) else ("cycles2" if cyc[1] else "no-cycle")
         return f"{op}/{deep}/{'stored' if parts[2] != 'stored=-' else 'nostored'}"
+    if op.startswith("rf_") and op != "rf_real":
+        if bad or ans == "overflow":
+            return f"{op}/{ans}"
+        d = parse_dump(ans)
+        nrm = len(d["removed"])
+        extra = ""
+        if op == "rf_dense":
+            extra = "/dups" if d.get("dups") else "/nodups"
+            extra += "/big" if len(a[-1]) > 8000 else ""
+        return f"{op}/removed{'0' if nrm == 0 else ('1-5' if nrm <= 5 else '>5')}{extra}"
     D = int(a[0])
     base = f"{op}/{dclass(D)}/{sizeclass(D)}"
     if op in ("cg_h", "cg_full"):
@@ -1477,7 +1658,7 @@ def nontrivial(case, ans):
 
 THEOREMS = ["Ymq.C18." + t for t in (
     "b_plus_unique parity_exactly_one bPlus_spec_odd bPlus_spec_even sign_total sign_exclusive large_sign_consistent poly_factors_total relation_no_panic "
-    "emitted_subset_inputs complete_relations_emitted store_total emit_hom emit_hom_map relLine_val "
+    "emitted_subset_inputs complete_relations_emitted store_total emit_hom emit_hom_map relLine_val filter_hom "
     "reduced_enum_sound reduced_enum_complete reduced_enum_nodup reduced_enum invariants_multiply invariantsOk_spec").split()] + [
     "Ymq.C18C19.reported_invariants_multiply"]
 HYPOTHESES = [
@@ -1496,7 +1677,8 @@ RULE = ("class numbers: every fundamental D with |D| below the tier bound (4*10^
         "some of 41..44 bits; composite D with known prime factors up to 100 bits (2-rank); full runs with an output directory for 8..128-bit D "
         "(every relation line checked), with and without thread pool, and with the double large prime variation forced (40..128 bits); the real "
         "sieve polynomial by polynomial through a hook (6..128 bits, also with double large primes); b_plus on random primes below 2^30 and "
-        "on real factor bases; random CRelationSet histories (0/1/2 large primes, pools of 2..80 large primes, refused and panicking shapes). "
+        "on real factor bases; RelFilterSparse on random relation lists (rowsub incl. i32 overflow, trim, stepwise pivot_one, whole dense loop, "
+        "inputs large enough for the trimming branch) and on real sieved relations; random CRelationSet histories (0/1/2 large primes, pools of 2..80 large primes, refused and panicking shapes). "
         "non-trivial = the implementation returned a result; distinct by request line")
 MODELLED = [
     "fbase::Prime::b_plus word-exact (Ymq/Model/ClassGroup.lean bPlus)",
@@ -1505,7 +1687,10 @@ MODELLED = [
     "to signed ideal factors (b mod p against b_plus, p = 2 rule, conductor primes, large prime parity), merge with the factors of A (relationOf)",
     "relationcls::CRelationSet::{add, add_path, update_tree, emit_path, emit}: spanning tree `paths`, `doubles`, `doubles_rev` as key-sorted "
     "association lists, counters, emission order, the text of the relations.sieve lines (run, relLine)",
-    "last lines of group_structure_dense: invariants = diagonal entries != 1 (invariantsOf)",
+    "last lines of group_structure_dense: invariants = diagonal entries != 1 (invariantsOf; on C19's Snf state: C18C19.reported)",
+    "relationcls::RelFilterSparse::{new, coeff, pivot_one, pivot, save_removed, remove_duplicates, trim, add_index, remove_row, rowsub} and the "
+    "filtering loop of group_structure_dense, with the whole private state (rows, weight, nonzero, removed, skip, wmin, nextelims, counters) "
+    "compared through a hook dump (Ymq/Model/ClassGroupFilter.lean)",
     "reference (not code): reduced primitive forms, classNumber, reduction, Gauss composition, prime forms (used to re-check relation lines "
     "and class numbers of real runs inside the Lean driver)",
 ]
@@ -1515,7 +1700,7 @@ UNMODELLED = [
     "that a sieved relation is a genuine relation (composition of forms / ideal arithmetic): every relation line of the sampled runs is "
     "re-checked by independent form arithmetic (Python) and by the model's form arithmetic (Lean driver), not proved",
     "the sieve itself (sieve::Sieve, smooths), select_siqs_factors/select_a/prepare_a, Poly::first/next, try_factor64, FBase::new / sqrt_mod "
-    "(C08), RelFilterSparse (structured Gauss elimination, trimming, duplicate removal), determinant / lattice index / Smith form (C19), "
+    "(C08), the sparse-path filtering loop of group_structure_sparse (same RelFilterSparse primitives, other stopping rule), determinant / lattice index / Smith form (C19), "
     "group_structure_sparse (returns no invariants: `FIXME: structure is incomplete` in the source), file output, rayon, RwLock",
     "I256/u64 overflow inside Poly::eval and the sign decision (values are asserted < 2^255 by the code; primes < 2^32)",
     "binary ymcls (argument parsing, negation of a positive argument, the 512-bit and `D mod 4` refusals, writing group.structure from the "
@@ -1529,7 +1714,9 @@ CLAIM = ("PARTIAL. Proved in Lean, for all inputs, about models tied to the code
          "only ever emits relations it was given, never loses a complete relation, and never panics, for every history of add calls (spanning "
          "tree of large primes included; the recursion of update_tree terminates), hence any homomorphism to an abelian group that kills the "
          "sieved relations kills every line of relations.sieve (emit_hom, relLine_val); (3) the reference enumeration of reduced primitive forms "
-         "is exact (sound, complete, duplicate free), so `classNumber D` is the number of reduced primitive forms; (4) the reported cyclic factors "
+         "is exact (sound, complete, duplicate free), so `classNumber D` is the number of reduced primitive forms; (3b) the relation filter before the "
+         "linear algebra (RelFilterSparse) only derives consequences of its input relations, whatever it pivots on, trims or aborts (filter_hom); "
+         "(4) the reported cyclic factors "
          "multiply to the reported class number whenever the Smith diagonal does. NOT proved, explored only: that the analytic estimate pins the "
          "right multiple (every reported class number is compared with an independent reduced-form count: exhaustively below the tier bound, "
          "randomly up to 2^40/2^44) and that sieved relations are genuine (every line of relations.sieve of the sampled runs up to 128 bits, with "
